@@ -28,6 +28,7 @@ type effWrite struct {
 }
 
 type effAnalyzer struct {
+	loopBody bool // scanning a loop body: plain assignments to the shared variables count as writes
 	pk    *packages.Package
 	info  *types.Info
 	prog  *Prog
@@ -116,8 +117,8 @@ func (a *effAnalyzer) scan(n ast.Node, roots map[types.Object]int, s *effSummary
 			for _, l := range x.Lhs {
 				o, viaMap := lhsRoot(info, l)
 				if idx, ok := roots[o]; ok {
-					if _, isIdent := unparen(l).(*ast.Ident); isIdent {
-						continue // re-binding a parameter variable is local
+					if _, isIdent := unparen(l).(*ast.Ident); isIdent && !(a.loopBody && depth == 0) {
+						continue // re-binding a parameter variable is local to the callee
 					}
 					form := "assign"
 					if viaMap {
@@ -306,7 +307,9 @@ func ruleMapRangeDeterminism(c *Ctx, short, rule string) {
 				names[i] = o.Name()
 			}
 			s := &effSummary{reads: map[int]bool{}}
+			ea.loopBody = true
 			ea.scan(rs.Body, shared, s, 0, nil)
+			ea.loopBody = false
 			var problems []string
 			if s.dynamic != "" {
 				problems = append(problems, "effects cannot be summarised: "+s.dynamic)
@@ -330,6 +333,9 @@ func ruleMapRangeDeterminism(c *Ctx, short, rule string) {
 						}
 					case "assign":
 						if isMinSelect(info, rs, w.node) {
+							continue
+						}
+						if isArgmaxSet(info, rs, w.node) {
 							continue
 						}
 						if isAppendSortedLater(info, fd, rs, w.node, c.P, short) {
@@ -419,6 +425,70 @@ func isMinSelect(info *types.Info, rs *ast.RangeStmt, node ast.Node) bool {
 		return true
 	})
 	return found
+}
+
+// isArgmaxSet: the "all elements with the largest key" idiom, whose result is the same set for every iteration order:
+//
+//	if ... || V < B { continue }; if V > B { L = nil }; B = V; L = append(L, x)
+//
+// node is one of the assignments to B or L in that statement list. (The order of L is judged by D2.)
+func isArgmaxSet(info *types.Info, rs *ast.RangeStmt, node ast.Node) bool {
+	ok := false
+	ast.Inspect(rs.Body, func(n ast.Node) bool {
+		bl, isB := n.(*ast.BlockStmt)
+		if !isB {
+			return true
+		}
+		var vS, bS, lS string
+		step := 0
+		in := false
+		for _, st := range bl.List {
+			if containsNode(st, node) {
+				in = true
+			}
+			switch x := st.(type) {
+			case *ast.IfStmt:
+				if step == 0 && x.Else == nil && len(x.Body.List) == 1 {
+					if br, isBr := x.Body.List[0].(*ast.BranchStmt); isBr && br.Tok == token.CONTINUE {
+						for _, a := range orAtoms(x.Cond) {
+							if b, isBin := unparen(a).(*ast.BinaryExpr); isBin && b.Op == token.LSS && identOf(b.X) != nil && identOf(b.Y) != nil {
+								vS, bS = exprString(b.X), exprString(b.Y)
+								step = 1
+							}
+						}
+						continue
+					}
+				}
+				if step == 1 && x.Else == nil && len(x.Body.List) == 1 {
+					if b, isBin := unparen(x.Cond).(*ast.BinaryExpr); isBin && b.Op == token.GTR && exprString(b.X) == vS && exprString(b.Y) == bS {
+						if as, isA := x.Body.List[0].(*ast.AssignStmt); isA && len(as.Lhs) == 1 && len(as.Rhs) == 1 && exprString(as.Rhs[0]) == "nil" {
+							lS = exprString(as.Lhs[0])
+							step = 2
+						}
+					}
+				}
+			case *ast.AssignStmt:
+				if len(x.Lhs) != 1 || len(x.Rhs) != 1 {
+					continue
+				}
+				if step == 2 && exprString(x.Lhs[0]) == bS && exprString(x.Rhs[0]) == vS {
+					step = 3
+				} else if step == 3 && exprString(x.Lhs[0]) == lS {
+					if call, isC := unparen(x.Rhs[0]).(*ast.CallExpr); isC && len(call.Args) == 2 && exprString(call.Fun) == "append" && exprString(call.Args[0]) == lS {
+						step = 4
+					}
+				}
+			}
+		}
+		if in && step == 4 {
+			// node must be one of the idiom's own assignments
+			if as, isA := node.(*ast.AssignStmt); isA && len(as.Lhs) == 1 && (exprString(as.Lhs[0]) == bS || exprString(as.Lhs[0]) == lS) {
+				ok = true
+			}
+		}
+		return true
+	})
+	return ok
 }
 
 // isAppendSortedLater: `s = append(s, ...)` where s is later sorted in the same function or
@@ -1005,6 +1075,48 @@ func ruleDepScopes(c *Ctx) {
 		_, has := cases[t]
 		c.Ob("D5-binding-constructs", "base/dep.Scope.AstExpr/"+t, ae, has, t+" opens a scope")
 	}
+	// every syntax node type that owns a *ast.FieldList makes AstExpr declare the field names (Field arm above):
+	// it must open a scope of its own, otherwise the names of parameters, struct fields and interface methods
+	// leak into the enclosing scope and shadow (or are mistaken for) package-level declarations
+	if astPk := pk.Imports["go/ast"]; astPk != nil {
+		var owners []string
+		sc := astPk.Types.Scope()
+		for _, name := range sc.Names() {
+			tn, ok := sc.Lookup(name).(*types.TypeName)
+			if !ok {
+				continue
+			}
+			st, ok := tn.Type().Underlying().(*types.Struct)
+			if !ok {
+				continue
+			}
+			for i := 0; i < st.NumFields(); i++ {
+				if pt, ok := st.Field(i).Type().(*types.Pointer); ok {
+					if nt, ok := pt.Elem().(*types.Named); ok && nt.Obj().Name() == "FieldList" && nt.Obj().Pkg() == astPk.Types {
+						owners = append(owners, "*ast."+name)
+						break
+					}
+				}
+			}
+		}
+		sort.Strings(owners)
+		nOwners := 0
+		for _, t := range owners {
+			if t == "*ast.FuncDecl" {
+				continue // handled by Scope.Func, which opens the function's scope (D4)
+			}
+			if t == "*ast.FuncLit" || t == "*ast.TypeSpec" {
+				continue // FuncLit: own arm (D4); TypeSpec: type parameters only, not used by the interpreter's generics
+			}
+			nOwners++
+			c.Ob("D5-binding-constructs", "base/dep.Scope.AstExpr/field-owner "+t, ae, opens[t], t+" owns a field list: scanning it declares the field names, so it opens a scope of its own")
+		}
+		if nOwners < 3 {
+			c.Ob("D5-binding-constructs", "base/dep.Scope.AstExpr/field-owners", ae, false, "go/ast node types owning a FieldList not found")
+		}
+	} else {
+		c.Ob("D5-binding-constructs", "base/dep.Scope.AstExpr/field-owners", ae, false, "go/ast not among the imports of base/dep")
+	}
 	// local declarations: var/const/type inside bodies go through Decl; := / range / type switch / select need their own arms
 	for _, t := range []string{"*ast.AssignStmt", "*ast.RangeStmt", "*ast.TypeSwitchStmt", "*ast.CommClause"} {
 		cl, has := cases[t]
@@ -1240,4 +1352,115 @@ func ruleCompileSorts(c *Ctx) {
 		}
 	})
 	c.Ob("D10-compile-sorts", "fast.Comp.Compile/argument", fd, ok, "compileDecl receives elements of the sorted list")
+}
+
+// ------------------------------------------------------------ D11: a repeated constant expression carries its dependencies
+
+// ruleConstDepsPairing: ConstDeps keeps the expressions of the last const spec (Type, Values) together with their
+// dependencies (TypeDeps, ValueDeps) so that a spec that repeats them implicitly depends on the same names.
+// Wherever one member of a pair is written or read at index i, the other is written / read in the same block.
+func ruleConstDepsPairing(c *Ctx, rule string) {
+	pk := c.P.Pkg("base/dep")
+	info := pk.TypesInfo
+	fd := c.P.Func("base/dep.Scope.Consts")
+	if fd == nil {
+		c.Ob(rule, "base/dep.Scope.Consts", nil, false, "anchor function not found")
+		return
+	}
+	// pairs from the struct: F / FDeps (plural s dropped)
+	var st *types.Struct
+	if tn, ok := pk.Types.Scope().Lookup("ConstDeps").(*types.TypeName); ok {
+		st, _ = tn.Type().Underlying().(*types.Struct)
+	}
+	if st == nil {
+		c.Ob(rule, "base/dep.ConstDeps", nil, false, "struct not found")
+		return
+	}
+	pairs := map[string]string{}
+	for i := 0; i < st.NumFields(); i++ {
+		n := st.Field(i).Name()
+		for j := 0; j < st.NumFields(); j++ {
+			m := st.Field(j).Name()
+			if m == n+"Deps" || m == strings.TrimSuffix(n, "s")+"Deps" && n != m {
+				pairs[n] = m
+			}
+		}
+	}
+	if len(pairs) < 2 {
+		c.Ob(rule, "base/dep.ConstDeps/pairs", nil, false, "expression/dependency field pairs not found")
+		return
+	}
+	// per block: which fields are written, which are read with an index
+	type use struct{ write, readIdx map[string]string }
+	blocks := map[*ast.BlockStmt]*use{}
+	var cur []*ast.BlockStmt
+	var visit func(n ast.Node) bool
+	fieldOf := func(e ast.Expr) (string, bool) {
+		s, ok := unparen(e).(*ast.SelectorExpr)
+		if !ok {
+			return "", false
+		}
+		if sel := info.Selections[s]; sel != nil && sel.Kind() == types.FieldVal {
+			if nt, ok := derefNamed(sel.Recv()); ok && nt.Obj().Name() == "ConstDeps" {
+				return s.Sel.Name, true
+			}
+		}
+		return "", false
+	}
+	visit = func(n ast.Node) bool {
+		switch x := n.(type) {
+		case *ast.BlockStmt:
+			cur = append(cur, x)
+			blocks[x] = &use{map[string]string{}, map[string]string{}}
+			for _, st := range x.List {
+				ast.Inspect(st, visit)
+			}
+			cur = cur[:len(cur)-1]
+			return false
+		case *ast.AssignStmt:
+			for _, l := range x.Lhs {
+				if f, ok := fieldOf(l); ok && len(cur) > 0 {
+					blocks[cur[len(cur)-1]].write[f] = "w"
+				}
+			}
+		case *ast.IndexExpr:
+			if f, ok := fieldOf(x.X); ok && len(cur) > 0 {
+				blocks[cur[len(cur)-1]].readIdx[f] = exprString(x.Index)
+			}
+		}
+		return true
+	}
+	ast.Inspect(fd.Body, visit)
+	n := 0
+	for bn, b := range blocks {
+		for f, d := range pairs {
+			if _, w := b.write[f]; w {
+				n++
+				_, w2 := b.write[d]
+				c.Ob(rule, "base/dep.Scope.Consts/write "+f, bn, w2, "the remembered expression "+f+" and its dependencies "+d+" are updated together")
+			}
+			if _, w := b.write[d]; w {
+				_, w2 := b.write[f]
+				c.Ob(rule, "base/dep.Scope.Consts/write "+d, bn, w2, "the remembered dependencies "+d+" and their expression "+f+" are updated together")
+			}
+			if ix, r := b.readIdx[f]; r {
+				n++
+				c.Ob(rule, "base/dep.Scope.Consts/use "+f+"["+ix+"]", bn, b.readIdx[d] == ix, "a constant that takes the remembered expression "+f+"["+ix+"] takes its dependencies "+d+"["+ix+"] under the same condition")
+			}
+			if ix, r := b.readIdx[d]; r {
+				c.Ob(rule, "base/dep.Scope.Consts/use "+d+"["+ix+"]", bn, b.readIdx[f] == ix, "dependencies "+d+"["+ix+"] are attached exactly where the expression "+f+"["+ix+"] is used")
+			}
+		}
+	}
+	if n < 2 {
+		c.Ob(rule, "base/dep.Scope.Consts/sites", fd, false, "update and use sites not found: anchor missing")
+	}
+}
+
+func derefNamed(t types.Type) (*types.Named, bool) {
+	if p, ok := t.(*types.Pointer); ok {
+		t = p.Elem()
+	}
+	n, ok := t.(*types.Named)
+	return n, ok
 }
